@@ -19,7 +19,8 @@ Inductive lentry :=
 | LMap (item : N) (o : mop)
 | LSentV (remote item : N) (v : Z)            (* an event frame of a value lane read by a remote *)
 | LSentM (remote item : N) (o : mop)          (* an event frame of a map lane *)
-| LLinked (remote item : N) | LSynced (remote item : N) | LUnlinked (remote item : N).
+| LLinked (remote item : N) | LSynced (remote item : N) | LUnlinked (remote item : N)
+| LClosed (remote : N).                       (* the remote's channel was closed by the agent *)
 
 Definition mop_eqb (a b : mop) : bool :=
   match a, b with
@@ -206,3 +207,31 @@ Definition p_oracle_bad (cs : list (N * pcase)) : list N :=
 Definition w_oracle_bad (cs : list (N * pcase)) : list N :=
   map fst (filter (fun c => negb (log_ok persistent_item (pc_log (snd c))
                                   && provenance_ok (pc_cmds (snd c)) (pc_log (snd c)))) cs).
+
+(* C04 on the same logs: per (remote, lane) the frames are linked, then events and synced markers, then one
+   unlinked; and a remote's channel is only ever closed by the agent when none of its links is open (an idle
+   remote that is pruned has none; at a stop every link is closed with unlinked first) *)
+Definition pair_eqb (a b : N * N) : bool := (fst a =? fst b) && (snd a =? snd b).
+Definition is_open (open : list (N * N)) (r i : N) : bool := existsb (pair_eqb (r, i)) open.
+Fixpoint links_ok_from (open : list (N * N)) (closed : list N) (l : list lentry) : bool :=
+  match l with
+  | [] => true
+  | e :: t =>
+      match e with
+      | LLinked r i =>       (* a link request for a lane that is linked already is answered with linked again *)
+          negb (existsb (N.eqb r) closed) &&
+          links_ok_from (if is_open open r i then open else (r, i) :: open) closed t
+      | LUnlinked r i =>
+          negb (existsb (N.eqb r) closed) &&
+          links_ok_from (filter (fun p => negb (pair_eqb (r, i) p)) open) closed t
+      | LSentV r i _ | LSentM r i _ | LSynced r i =>
+          negb (existsb (N.eqb r) closed) && is_open open r i && links_ok_from open closed t
+      | LClosed r =>
+          negb (existsb (fun p => fst p =? r) open) && links_ok_from open (r :: closed) t
+      | _ => links_ok_from open closed t
+      end
+  end.
+Definition links_ok (l : list lentry) : bool := links_ok_from [] [] l.
+
+Definition w_links_bad (cs : list (N * pcase)) : list N :=
+  map fst (filter (fun c => negb (links_ok (pc_log (snd c)))) cs).
